@@ -15,12 +15,14 @@ import (
 	"net"
 	"os"
 	"strings"
+	"sync"
 
 	"github.com/enbility/ship-go/api"
 	"github.com/enbility/ship-go/mdns"
 )
 
 type fakeProvider struct {
+	mu       sync.Mutex
 	txt      []string
 	name     string
 	port     int
@@ -31,6 +33,8 @@ func (p *fakeProvider) Start(bool, api.MdnsResolveCB) bool { return true }
 func (p *fakeProvider) Shutdown()                          {}
 func (p *fakeProvider) Unannounce()                        {}
 func (p *fakeProvider) Announce(name string, port int, txt []string) error {
+	p.mu.Lock()
+	defer p.mu.Unlock()
 	p.txt, p.name, p.port = append([]string{}, txt...), name, port
 	p.announce++
 	return nil
@@ -102,7 +106,7 @@ func txtqrMain(args []string) int {
 	localSki := "0123456789abcdef0123456789abcdef01234567"
 	corpus := [][6]string{
 		{"aa", "id", "0123456789012345678901234567890ä", "mo=del", "type", "serial"}, // fixed: rune split, '=' in value
-		{"ab", "id;BRAND:evil", "", "", "", ""},                                       // fixed: ';' in id
+		{"ab", "id;BRAND:evil", "", "", "", ""},                                      // fixed: ';' in id
 		{"ab;cd", "x=y", "b;r", "m:o", "t", ""},
 	}
 	for i := 0; i < *n+len(corpus); i++ {
